@@ -9,7 +9,7 @@
    key once, at some instant during the call), the completeness of the translator's access extraction (cross-checked by
    the race detector), panics other than those a data race can cause. *)
 From Coq Require Import List String NArith Sorted.
-From Verif Require Import LockLang LockSound LockExamples Conc ConcProofs ConcExamples.
+From Verif Require Import LockLang LockSound LockExamples Conc ConcProofs ConcExamples Broker Run_Broker Run_Conc RunConcProofs.
 Import ListNotations.
 
 Theorem C04_no_data_race : forall C pr entries lits unsup,
@@ -85,6 +85,20 @@ Theorem C04_quiescent_sequential : forall H1 H2 : thist,
   sortedT H1 -> sortedT H2 -> (forall x, In x H1 <-> In x H2) -> exec (labels H1) = exec (labels H2).
 Proof. exact quiescent_sequential. Qed.
 Print Assumptions C04_quiescent_sequential.
+
+(* "once concurrent callers quiesce the broker behaves as if their calls had run in some sequential order": the
+   correspondence decides this for every observed history by a search (Run_Conc.lin, evaluated by vm_compute).  The search is
+   sound and complete for the declarative statement: [linearizable final b ops] = some permutation of the calls in which every
+   call is minimal, w.r.t. "returned before the other was invoked", among those that follow it, replayed on Broker.step from b,
+   reproduces every observed result (ok / error / closed objects) and ends in the observed registry *)
+Theorem C04_linearization_search_sound : forall depth budget final b pend bud',
+  lin depth budget final b pend = (bud', LFound) -> linearizable final b pend.
+Proof. exact lin_sound. Qed.
+Print Assumptions C04_linearization_search_sound.
+Theorem C04_linearization_search_complete : forall depth budget final b pend bud',
+  lin depth budget final b pend = (bud', LNone) -> ~ linearizable final b pend.
+Proof. exact lin_complete. Qed.
+Print Assumptions C04_linearization_search_complete.
 
 (* non-vacuity: a timed history that meets every hypothesis of the delivery theorem with must1 = true (and delivers once),
    one with must0 = true, and the miniature Broker program for part (a) *)
